@@ -1,4 +1,4 @@
-CONSTANT Cfg <- Cfg_nested1
+CONSTANT CfgSet <- S_nested1
 INIT MCInit
 NEXT Next
 CHECK_DEADLOCK FALSE
